@@ -1,4 +1,10 @@
 import RTV.Lemmas.Spell
+import RTV.Lemmas.SpellEs
+import RTV.Lemmas.SpellFr
+import RTV.Lemmas.SpellPt
+import RTV.Lemmas.SpellDe
+import RTV.Lemmas.SpellIt
+import RTV.Lemmas.SpellNl
 /-!
 # C04 — spelled-out cardinals and ordinals resolve to the integer they denote (English: all `n < 10^15`)
 
@@ -151,5 +157,52 @@ theorem spell_words_in_maps :
   have := this r (List.mem_range.mpr h2)
   rw [List.all_eq_true] at this
   exact this t ht
+
+/-! ### the other word-based cultures: every numeral below 1000
+
+`spellEu <culture>Spell n` (`RTV/Model/SpellEu.lean`) is the standard written-out form of `n < 1000` with the token
+list `text_number_regex` yields for it (tie checked by the harness on every run); the shared `getIntValue` is
+instantiated with the culture's regenerated maps and its own `resolve_composite_number`. -/
+
+/-- Spanish: `cero` … `novecientos noventa y nueve` -/
+theorem spanish_sub1000 (n : Nat) (h : n < 1000) :
+    getIntValue true asciiDigits es.lang (spellEu esSpell n).2 = .ok n := es_all n h rfl
+
+/-- Portuguese (Brazilian spelling): `zero` … `novecentos e noventa e nove` -/
+theorem portuguese_sub1000 (n : Nat) (h : n < 1000) :
+    getIntValue true asciiDigits pt.lang (spellEu ptSpell n).2 = .ok n := pt_all n h rfl
+
+/-- German: `null` … `neunhundertneunundneunzig` (compounds split by the tokeniser) -/
+theorem german_sub1000 (n : Nat) (h : n < 1000) :
+    getIntValue true asciiDigits de.lang (spellEu deSpell n).2 = .ok n := de_all n h rfl
+
+/-- Dutch: `nul` … `negenhonderdnegenennegentig` -/
+theorem dutch_sub1000 (n : Nat) (h : n < 1000) :
+    getIntValue true asciiDigits nl.lang (spellEu nlSpell n).2 = .ok n := nl_all n h rfl
+
+/- French, full statement (fails): ∀ n < 1000, getIntValue fr (spellEu frSpell n).2 = n.
+   The plural `cents` of the round hundreds 200 … 900 is not a key of the French maps, the tokeniser drops it. -/
+/-- French, exact guard: every numeral below 1000 except the round hundreds `deux cents` … `neuf cents`. -/
+theorem french_sub1000_partial (n : Nat) (h : n < 1000) (hg : ¬ (n % 100 = 0 ∧ 200 ≤ n)) :
+    getIntValue true asciiDigits fr.lang (spellEu frSpell n).2 = .ok n :=
+  fr_all n h (by simp only [frGuard, Bool.not_eq_true', Bool.and_eq_false_iff, beq_eq_false_iff_ne, ne_eq,
+    decide_eq_false_iff_not]; omega)
+
+/-- negative witness (recorded finding `fr-fr:cardinal:plural-cents:span`): `deux cents` is tokenised to `deux` -/
+theorem french_plural_cents_witness :
+    (spellEu frSpell 200).2 = [[100, 101, 117, 120]] ∧
+    getIntValue true asciiDigits fr.lang (spellEu frSpell 200).2 = .ok 2 := by decide +kernel
+
+/- Italian, full statement (fails): ∀ n < 1000, getIntValue it (spellEu itSpell n).2 = n.
+   The accented `-tré` of 23, 33, …, 93 (and x23 …) is not a key, the tokeniser drops it. -/
+/-- Italian, exact guard: every numeral below 1000 whose last two digits are not 23, 33, …, 93. -/
+theorem italian_sub1000_partial (n : Nat) (h : n < 1000) (hg : ¬ (n % 10 = 3 ∧ 20 ≤ n % 100)) :
+    getIntValue true asciiDigits it.lang (spellEu itSpell n).2 = .ok n :=
+  it_all n h (by simp only [itGuard, Bool.not_eq_true', Bool.and_eq_false_iff, beq_eq_false_iff_ne, ne_eq,
+    decide_eq_false_iff_not]; omega)
+
+/-- negative witness (recorded finding `it-it:cardinal:accented-tre:no-entity`): `ventitré` is tokenised to `venti` -/
+theorem italian_accented_tre_witness :
+    getIntValue true asciiDigits it.lang (spellEu itSpell 23).2 = .ok 20 := by decide +kernel
 
 end RTV.Num
